@@ -31,7 +31,7 @@ class Module:
             key = (self.sha1, form, helpers, functions)
             if key not in _AST_CACHE:
                 from .normalize import normalize
-                _AST_CACHE[key] = normalize(tree, form, source, path, helpers, functions)
+                _AST_CACHE[key] = normalize(tree, form, source, path, helpers, functions, self.short)
             tree = _AST_CACHE[key]
         self.tree = tree
         self.form = form
